@@ -88,7 +88,7 @@ def main():
         for f, dest in files.items():
             os.makedirs(os.path.dirname(os.path.join(WT, dest)), exist_ok=True)
             shutil.copy(os.path.join(demo, f), os.path.join(WT, dest))
-        tcmd = "cargo test --offline -p %s %s -- --nocapture --test-threads 1" % (pkg, " ".join("--test " + t for t in tests))
+        tcmd = "cargo test --offline --workspace %s -- --nocapture --test-threads 1" % " ".join("--test " + t for t in tests)
         t0 = time.time()
         rc0, out0 = sh(tcmd, cwd=WT)
         res["steps"]["demo_without_change_passes"] = rc0 == 0
